@@ -181,7 +181,10 @@ def cases(tier, seed):
             add("panic", N, "witness_any", None, True)
         if N <= 8:
             for k in range(1, N):
-                add("sub8", N, "function", k, True)
+                if N <= 4 or k <= 3:
+                    # lists merged from two match arms: interpreted arithmetic under symbolic control gets
+                    # slow quickly (measured 180 s at N=8, k=6), so the larger ones quantify over f instead
+                    add("sub8", N, "function", k, True)
                 add("uf8", N, "function", k, False)
     # canaries: a deliberately wrong specification must be refuted by the solver
     add("uf8", 8, "witness_len", 6, False, mut={"fold_reverse_elems"})
